@@ -13,6 +13,9 @@ SEMANTIC = (
     ('possible arithmetic underflow/overflow', 'overflow'),
     ('possible division by zero', 'div0'),
     ('index out of bounds', 'bounds'),
+    ('index in bounds', 'bounds'),
+    ('precondition not met', 'pre'),
+    ('slice', 'bounds'),
     ('possible bit shift underflow/overflow', 'overflow'),
     ('decreases not satisfied', 'decreases'),
     ('failed to prove termination', 'decreases'),
